@@ -1,17 +1,32 @@
 #!/usr/bin/env python3
-"""dev tool: apply a textual mutation to /repo, run a check, restore.  usage: mut.py PID FILE 'old' 'new' [tier]"""
-import subprocess, sys
-pid, f, old, new = sys.argv[1:5]
-tier = sys.argv[5] if len(sys.argv) > 5 else "quick"
-p = f"/repo/virocon/{f}"
-s = open(p).read()
-assert s.count(old) >= 1, f"pattern not found in {f}: {old!r}"
-open(p, "w").write(s.replace(old, new, 1))
+"""dev tool: mutate a scratch copy of /repo (never /repo itself), run a check against it via VIROCON_REPO.
+usage: mut.py PID FILE 'old' 'new' [tier]     |   mut.py PID --patch file.diff [tier]"""
+import os, shutil, subprocess, sys, tempfile
+pid = sys.argv[1]
+tmp = tempfile.mkdtemp(prefix="vmut_", dir="/var/tmp")
 try:
-    r = subprocess.run(["/verif/check", pid, "--tier", tier], capture_output=True, text=True)
-    lines = [l for l in r.stdout.splitlines() if l.startswith(("VIOLATION", "HARNESS", "KNOWN")) or " tier=" in l]
-    print(f"exit={r.returncode}", f"{len([l for l in lines if l.startswith('VIOLATION')])} violations;", lines[-1] if lines else r.stderr[-300:])
-    firstv = [l for l in r.stdout.splitlines() if l.startswith("[violated]") or l.startswith("[harness") or l.startswith("[unconf")]
-    if firstv: print("   ", firstv[0][:200])
+    subprocess.run(["git", "-C", "/repo", "worktree", "add", "--detach", "-q", tmp + "/r", "HEAD"], check=True)
+    repo = tmp + "/r"
+    # carry over uncommitted state of /repo's working tree (normally none)
+    if sys.argv[2] == "--patch":
+        subprocess.run(["git", "-C", repo, "apply", os.path.abspath(sys.argv[3])], check=True)
+        tier = sys.argv[4] if len(sys.argv) > 4 else "quick"
+    else:
+        f, old, new = sys.argv[2:5]
+        tier = sys.argv[5] if len(sys.argv) > 5 else "quick"
+        p = f"{repo}/virocon/{f}"
+        s = open(p).read()
+        assert s.count(old) >= 1, f"pattern not found in {f}: {old!r}"
+        open(p, "w").write(s.replace(old, new, 1))
+    env = dict(os.environ, VIROCON_REPO=repo, VERIF_OUT=tmp + "/out")
+    r = subprocess.run(["/verif/check", pid, "--tier", tier], capture_output=True, text=True, env=env)
+    out = r.stdout.splitlines()
+    nv = len([l for l in out if l.startswith("VIOLATION")])
+    summ = [l for l in out if " tier=" in l]
+    print(f"exit={r.returncode} violations={nv}; {summ[-1][:160] if summ else r.stderr[-300:]}")
+    first = [l for l in out if l.startswith(("[violated]", "[harness", "[unconf", "[inconcl", "[vacuous"))]
+    if first:
+        print("    " + first[0][:200])
 finally:
-    subprocess.run(["git", "-C", "/repo", "checkout", "--", "."], check=True)
+    subprocess.run(["git", "-C", "/repo", "worktree", "remove", "--force", tmp + "/r"])
+    shutil.rmtree(tmp, ignore_errors=True)
